@@ -9,6 +9,7 @@ import (
 	"bytes"
 	"encoding/json"
 	"fmt"
+	"strings"
 	"testing"
 )
 
@@ -17,6 +18,7 @@ type SynthSpec struct {
 	NCols int    `json:"ncols"`
 	Seed  uint64 `json:"seed"`
 	Dups  int    `json:"dups"` // every Dups-th row repeats an earlier key (0 = none)
+	Big   int    `json:"big,omitempty"` // length of one huge cell in the last column of row 0 (needs ncols >= 2)
 }
 
 func (s SynthSpec) Build() (cols []string, pk []string, rows [][]string) {
@@ -45,6 +47,9 @@ func (s SynthSpec) Build() (cols []string, pk []string, rows [][]string) {
 		}
 		rows[i] = row
 	}
+	if s.Big > 0 && s.Big <= 70000 && nc >= 2 && s.N > 0 {
+		rows[0][nc-1] = strings.Repeat("B", s.Big)
+	}
 	return
 }
 
@@ -54,7 +59,8 @@ type C16Plan struct {
 	Cfg    IngestCfg `json:"cfg"`
 	Faults []*Fault  `json:"faults,omitempty"`
 	// diff/merge specifics
-	Edits []Edit `json:"edits,omitempty"`
+	Edits  []Edit `json:"edits,omitempty"`
+	Edits2 []Edit `json:"edits2,omitempty"`
 }
 
 func init() {
@@ -67,12 +73,30 @@ func init() {
 			if tier == "thorough" {
 				maxBlocks = 40
 			}
-			p := C16Plan{Kind: "ingest"}
+			p := C16Plan{Kind: Pick(r, []string{"ingest", "ingest", "diff", "merge"})}
+			if p.Kind != "ingest" {
+				maxBlocks = min(maxBlocks, 4)
+			}
 			p.Synth = SynthSpec{N: r.Range(1, maxBlocks*255), NCols: r.Range(1, 4), Seed: r.Uint64(), Dups: Pick(r, []int{0, 0, 7, 100})}
 			if r.Chance(0.3) {
 				p.Synth.N = Pick(r, []int{255, 256, 510, 511, 765, 1020})
 			}
 			p.Cfg = IngestCfg{Delim: ",", RunSize: Pick(r, []uint64{0, 0, 2048, 20000}), Workers: r.Range(3, 16), SchedSeed: r.Uint64()}
+			if p.Kind != "ingest" {
+				cols, pk, _ := p.Synth.Build()
+				p.Synth.Dups = 0
+				p.Synth.NCols = max(p.Synth.NCols, 2)
+				cols, pk, _ = p.Synth.Build()
+				p.Edits = genRowEdits(r.Sub("e1"), cols, pk, p.Synth.N, 6)
+				e1, e2 := genDisjointEdits(r.Sub("e2"), cols, pk, p.Synth.N)
+				if p.Kind == "merge" {
+					p.Edits, p.Edits2 = e1, e2
+				}
+				if r.Chance(0.4) {
+					p.Faults = append(p.Faults, &Fault{Op: Pick(r, []string{"get", "get", "read", "any"}), Prefix: Pick(r, []string{"", "blkidx/", "blk/", "tblidx/"}), Nth: r.Range(1, 8)})
+				}
+				return p
+			}
 			if r.Chance(0.35) {
 				nf := r.Range(1, 2)
 				for i := 0; i < nf; i++ {
@@ -168,5 +192,160 @@ func execC16Ingest(t *testing.T, p *C16Plan, res *Result) {
 	}
 }
 
-func execC16Diff(t *testing.T, p *C16Plan, res *Result)  { res.Invalid("not built") }
-func execC16Merge(t *testing.T, p *C16Plan, res *Result) { res.Invalid("not built") }
+
+// execC16Diff: diff.DiffTables (producer goroutine vs consumer) under the
+// scheduler with the race detector; optional injected read error.
+func execC16Diff(t *testing.T, p *C16Plan, res *Result) {
+	cols, pk, rows := p.Synth.Build()
+	for _, e := range p.Edits {
+		if e.Op != "setcell" && e.Op != "delrow" && e.Op != "addrow" {
+			res.Invalid("row-level edits only")
+			return
+		}
+	}
+	_, _, rows2 := ApplyEdits(cols, pk, rows, p.Edits)
+	rows2 = DedupeByKey(cols, pk, rows2)
+	w := &World{}
+	st := NewStore("L", w)
+	s1, err1 := ingestPlain(t, st, cols, pk, rows)
+	s2, err2 := ingestPlain(t, st, cols, pk, rows2)
+	if err1 != nil || err2 != nil {
+		res.Invalid("ingest: %v %v", err1, err2)
+		return
+	}
+	// reference (fault-free, unscheduled)
+	want, err := runDiff(st, st, s2, s1)
+	if err != nil {
+		res.Violate("diff-error", "fault-free diff failed: %v", err)
+		return
+	}
+	st.Faults = p.Faults
+	sc := NewSched(p.Cfg.SchedSeed)
+	st.Sched = sc
+	var got []diffEvent
+	var derr error
+	bo := Bubble(t, 0, func(mainDone *bool) {
+		done := make(chan struct{})
+		go func() {
+			defer close(done)
+			got, derr = runDiff(st, st, s2, s1)
+			*mainDone = true
+		}()
+		sc.Run(done)
+	})
+	st.Sched = nil
+	res.stat("sim_steps", float64(sc.Steps))
+	res.hashOf(fmt.Sprintf("sched:%x", sc.Hash()))
+	if bubbleProblems(res, bo, "diff") {
+		return
+	}
+	if fired := st.FaultsFired(); fired > 0 {
+		res.fault("store_error", fired)
+		res.probe("error_hit_differ", 1)
+		if derr == nil {
+			res.Violate("error-swallowed", "a store read failed inside the differ but no error was reported (%d events delivered)", len(got))
+		}
+		res.Nontrivial = true
+		return
+	}
+	if derr != nil {
+		res.Violate("diff-error", "diff failed without a fault: %v", derr)
+		return
+	}
+	if len(got) != len(want) {
+		res.Violate("outcome-differs", "scheduled diff yields %d events, sequential %d", len(got), len(want))
+		return
+	}
+	wm := map[string]string{}
+	for _, e := range want {
+		wm[e.PK] = e.Kind + e.Sum + e.Old
+	}
+	for _, e := range got {
+		if wm[e.PK] != e.Kind+e.Sum+e.Old {
+			res.Violate("outcome-differs", "scheduled diff event for key hash %x differs from the sequential run", e.PK)
+			return
+		}
+	}
+	res.Nontrivial = len(want) > 0 && p.Synth.N > 255
+}
+
+// execC16Merge: merge.Merger (differs, merger, collector goroutines; reads not
+// parked during phase 1) followed by SortedBlocks -> IngestTableFromBlocks with
+// workers under the scheduler; optional injected read error.
+func execC16Merge(t *testing.T, p *C16Plan, res *Result) {
+	cols, pk, rows := p.Synth.Build()
+	for _, e := range append(append([]Edit{}, p.Edits...), p.Edits2...) {
+		if e.Op != "setcell" && e.Op != "delrow" && e.Op != "addrow" {
+			res.Invalid("row-level edits only")
+			return
+		}
+	}
+	_, _, r1 := ApplyEdits(cols, pk, rows, p.Edits)
+	_, _, r2 := ApplyEdits(cols, pk, rows, p.Edits2)
+	r1, r2 = DedupeByKey(cols, pk, r1), DedupeByKey(cols, pk, r2)
+	w := &World{}
+	st := NewStore("L", w)
+	base, e0 := ingestPlain(t, st, cols, pk, rows)
+	b1, e1 := ingestPlain(t, st, cols, pk, r1)
+	b2, e2 := ingestPlain(t, st, cols, pk, r2)
+	if e0 != nil || e1 != nil || e2 != nil {
+		res.Invalid("ingest: %v %v %v", e0, e1, e2)
+		return
+	}
+	// reference: 1 worker, unscheduled, fault-free
+	var ref *mergeOutcome
+	var rerr error
+	bo := Bubble(t, 0, func(mainDone *bool) {
+		ref, rerr = runMerge(t, st, base, [][]byte{b1, b2}, 0, "blocks", 1)
+		*mainDone = true
+	})
+	if bubbleProblems(res, bo, "reference merge") {
+		return
+	}
+	if rerr != nil {
+		res.Violate("merge-error", "fault-free merge failed: %v", rerr)
+		return
+	}
+	st.Faults = p.Faults
+	sc := NewSched(p.Cfg.SchedSeed)
+	st.Sched = sc
+	var out *mergeOutcome
+	var merr error
+	bo = Bubble(t, 0, func(mainDone *bool) {
+		done := make(chan struct{})
+		go func() {
+			defer close(done)
+			out, merr = runMerge(t, st, base, [][]byte{b1, b2}, 0, "blocks", p.Cfg.Workers)
+			*mainDone = true
+		}()
+		sc.Run(done)
+	})
+	st.Sched = nil
+	res.stat("sim_steps", float64(sc.Steps))
+	res.hashOf(fmt.Sprintf("sched:%x", sc.Hash()))
+	if bubbleProblems(res, bo, "merge") {
+		return
+	}
+	if fired := st.FaultsFired(); fired > 0 {
+		res.fault("store_error", fired)
+		res.probe("error_hit_merge", 1)
+		if merr == nil {
+			res.Violate("error-swallowed", "a store read failed during the merge but it reported success")
+		}
+		res.Nontrivial = true
+		return
+	}
+	if merr != nil {
+		res.Violate("merge-error", "merge failed without a fault: %v", merr)
+		return
+	}
+	if !bytes.Equal(out.TableSum, ref.TableSum) {
+		res.Violate("outcome-differs", "merge result table %x with %d workers under schedule differs from the sequential result %x", out.TableSum, p.Cfg.Workers, ref.TableSum)
+		return
+	}
+	if len(out.Conflicts) != len(ref.Conflicts) {
+		res.Violate("outcome-differs", "%d conflicts vs %d sequentially", len(out.Conflicts), len(ref.Conflicts))
+		return
+	}
+	res.Nontrivial = true
+}
